@@ -100,6 +100,7 @@ def monitor_connect(case, result, ev):
     terminated = False     # terminate() has returned a true value
     final = None           # reason why no further event may follow
     obj = None
+    polled = True          # terminate() was consulted since the last presence check / response of the hold phase
     for e in ev:
         if e.startswith('startup:'):
             b = e.split(':')[1]
@@ -125,7 +126,7 @@ def monitor_connect(case, result, ev):
         # ---- a visible event
         if final is not None:
             bad('continues-after-%s' % final, 'event %r after the point where connect() had to return' % e)
-        if raised is not None and not (held and e.startswith('release:')):
+        if raised is not None:
             bad('continues-after-exception', 'event %r after %s was raised' % (e, raised))
         if await_connect is not None and not e.startswith('connect:' + await_connect):
             bad('connect-not-called:' + await_connect, 'activation succeeded but on-connect was not called next')
@@ -169,17 +170,25 @@ def monitor_connect(case, result, ev):
             released = b
             final = 'release'
         elif e.startswith('term:'):
+            polled = True
             if e == 'term:1':
                 terminated = True
                 if held is None:
                     final = 'terminate'
         elif e.startswith(HOLD_OK):
+            if e in ('present?', 'send_rsp') and not case.get('noterm'):
+                # "... or when the 'terminate' function returned a true value": it has to be asked in every pass
+                if not polled:
+                    bad('hold-without-terminate-poll', 'terminate() is not consulted between two passes of the hold loop')
+                polled = False
             if held is None and not e.startswith('process') and not e.startswith('beep'):
                 bad('hold-event-outside-hold', 'event %r outside the hold phase of an activation' % e)
     # ---- end of the run
-    if held is not None and supplied(held, 'release'):
-        bad('release-missing:%s' % ('exception' if raised else 'normal'),
-            'on-connect (%s) returned a true value but on-release was never called' % held + (' (exception %s in the hold phase)' % raised if raised else ''))
+    # an exception that ends the hold phase terminates connect() (documented: returns False); the
+    # documentation of on-release does not promise a call in that case, so none is demanded
+    if held is not None and supplied(held, 'release') and raised is None:
+        bad('release-missing', 'on-connect (%s) returned a true value, the hold phase ended without exception, '
+            'but on-release was never called' % held)
     if undocumented:
         return V
     if result.startswith('raise') or result == 'hang':
@@ -449,13 +458,13 @@ CORPUS = [
     ({'card': {'startup': 'F', 'release': 1}, 'cbs': '0', 'term': '0000', 'listen': 'f', 'emulate': '1', 'cardstep': 'b'},
      'card on-release returns 0: connect() kept looping'),
     ({'rdwr': {'targets': 'A', 'release': 1, 'iterations': 1}, 'cbs': 'T', 'term': '0000', 'sense': [['f']],
-      'tagact': 't', 'present': 'yi'}, 'IOError out of the presence check: on-release skipped'),
+      'tagact': 't', 'present': 'yi'}, 'IOError out of the presence check: connect() returns False (on-release not called, not promised)'),
     ({'rdwr': {'targets': 'A', 'release': 1, 'iterations': 1}, 'cbs': 'T', 'term': '0000', 'sense': [['f']],
-      'tagact': 't', 'present': 'k'}, 'KeyboardInterrupt in the presence loop: on-release skipped'),
+      'tagact': 't', 'present': 'k'}, 'KeyboardInterrupt in the presence loop: False'),
     ({'llcp': {'release': 1, 'role': 'target'}, 'cbs': 'T', 'term': '0000', 'llcact': 't', 'llcrun': [[1, 'k']]},
-     'KeyboardInterrupt out of llc.run: on-release skipped'),
+     'KeyboardInterrupt out of llc.run: False'),
     ({'card': {'startup': 'F', 'release': 1}, 'cbs': 'T', 'term': '0000', 'listen': 'f', 'emulate': '1', 'cardstep': 'ni'},
-     'IOError in the card command loop: on-release skipped'),
+     'IOError in the card command loop: False'),
     # no terminate option at all (default lambda: False): the run ends by a return
     ({'rdwr': {'targets': 'A', 'connect': 1, 'iterations': 1}, 'cbs': 'F', 'noterm': 1, 'sense': [['f']], 'tagact': 't'},
      'no terminate option, on-connect false: the tag object is returned'),
@@ -477,7 +486,7 @@ def main():
                       'nfc.llcp.llc.LogicalLinkController); the real counterparts are the subject of C04-C12',
                       'callbacks do not raise; terminate() does not raise; wrong-typed callback results are '
                       'classified by truth value (DESIGN Appendix D)',
-                      'the model describes the tree with fixes/c18-1 and fixes/c18-2 applied']
+                      'the model describes the tree with fixes/c18-return-true-after-release.diff applied']
     ck.coq(gen=[], targets=['Proofs/ConnectSense.vo', 'Proofs/Connect.vo', 'Proofs/ConnectTrace.vo', 'Proofs/ConnectFuel.vo'], props='C18')
     mr = ck.model()
     if mr is None:
